@@ -59,15 +59,7 @@ Leaf(r, k) ==
 FixLeaf(q) == IF q[1] = "rng" /\ q[3][1] = "unb" /\ q[4][1] = "unb" THEN <<"rng", q[2], <<"incl", q[3][2]>>, q[4]>> ELSE q
 Occ(x) == (<<"", "", "+", "+", "-">>)[(x % 5) + 1]
 
-\* steering: the search of a phrase under `-` panics in PhraseScorer::seek_danger (a defect of query
-\* execution, not of the parser); `n:>=1^2` takes `1^2` as the bound (boosted ranges are printed in parentheses)
-RECURSIVE HasPhrase(_)
-HasPhrase(q) == CASE q[1] = "ph" -> Len(q[3]) > 1
-                  [] q[1] \in {"paren", "boost"} -> HasPhrase(q[2])
-                  [] q[1] = "bool" -> \E x \in 1..Len(q[2]) : HasPhrase(q[2][x][2])
-                  [] q[1] = "grp" -> \E x \in 1..Len(q[3]) : HasPhrase(q[3][x][2])
-                  [] q[1] = "bin" -> \E x \in 1..Len(q[2]) : HasPhrase(q[2][x])
-                  [] OTHER -> FALSE
+\* steering: `n:>=1^2` takes `1^2` as the bound (boosted ranges are printed in parentheses)
 RECURSIVE Composite(_, _, _), Operand(_, _, _)
 Operand(r, k, depth) ==
   IF depth = 0 \/ R(r, k) % 3 # 0 THEN
@@ -76,8 +68,7 @@ Operand(r, k, depth) ==
 Composite(r, k, depth) ==
   LET c == R(r, k) % 8   n == 2 + (R(r, k + 1) % 2) IN
   CASE c \in {0, 1} ->
-         LET c0 == [x \in 1..n |-> <<Occ(R(r, k + 1 + x)), Operand(r, k + 7 * x, depth)>>]
-             cl == [x \in 1..n |-> IF c0[x][1] = "-" /\ HasPhrase(c0[x][2]) THEN <<"+", c0[x][2]>> ELSE c0[x]]
+         LET cl == [x \in 1..n |-> <<Occ(R(r, k + 1 + x)), Operand(r, k + 7 * x, depth)>>]
          IN  <<"bool", IF \A x \in 1..n : cl[x][1] = "-" THEN [cl EXCEPT ![1] = <<"+", cl[1][2]>>] ELSE cl>>
     [] c \in {2, 3} -> <<"bin", [x \in 1..n |-> Operand(r, k + 7 * x, depth)], [x \in 1..(n - 1) |-> IF R(r, k + 2 + x) % 2 = 0 THEN "AND" ELSE "OR"]>>
     [] c = 4 -> <<"grp", IF R(r, k + 2) % 2 = 0 THEN "title" ELSE "body",
